@@ -207,6 +207,7 @@ Fixpoint insert_sorted (kv : str * val) (l : list (str * val)) : list (str * val
   | x :: r => if str_ltb (fst kv) (fst x) then kv :: l else x :: insert_sorted kv r
   end.
 Definition s_val : str := [118; 97; 108]%N.
+Definition s_name : str := [110; 97; 109; 101]%N.
 Definition describe (binary : bool) (t : tree) : list (str * val) :=
   let base := fold_right insert_sorted [] (scalar_attrs t) in
   if binary then insert_sorted (s_val, VStr (tname t)) base else base.
@@ -218,7 +219,9 @@ Definition attr_suffix (binary : bool) (o : printopts) (t : tree) : res str :=
   if po_all o || (match po_list o with [] => false | _ => true end) then
     match po_bracket o with
     | [bo; bc] =>
-        let own := if binary then (s_val, VStr (tname t)) :: scalar_attrs t else scalar_attrs t in
+        (* hasattr / get_attr see every instance attribute, `name` included *)
+        let own := (s_name, VStr (tname t)) ::
+                   (if binary then (s_val, VStr (tname t)) :: scalar_attrs t else scalar_attrs t) in
         let items :=
           if po_all o then map attr_item (describe binary t)
           else flat_map (fun a => match vlookup a own with
